@@ -209,6 +209,17 @@ class T2TModel(object):
         return out
 
     # ------------------------------------------------------------------ command interpreter
+    def frame_error(self):
+        """the tag received a frame it cannot decode (the command was damaged on the air).  While it waits for
+        SECTOR SELECT packet 2 anything but a valid packet 2 ends the wait: the NAK is not heard by the reader and
+        the tag *stays in the sector it was in*.  In every other state the (lenient) tag ignores the frame.
+        Not called by SimTagDevice; fault scripts that model "command damaged" (as opposed to "command never
+        reached the tag") call it when they drop a command."""
+        if self.sector_pending:
+            self.sector_pending = False
+            self.naks += 1
+            self.pending_aborts = getattr(self, "pending_aborts", 0) + 1
+
     def command(self, data):
         if data is None:
             return None
